@@ -131,18 +131,52 @@ def gen_case(rng):
     units = [i for i, v in enumerate(variants) if v["style"] == "unit"]
     if kind == "enum" and "Default" not in traits and units and rng.random() < 0.3:
         stdv = rng.choice(units)
+    # conditional compilation inside the item: a field / variant under a false cfg (it does not exist), under a true cfg,
+    # a helper attribute wrapped in cfg_attr(all(), ..)
+    cfg = None
+    if rng.random() < 0.12 and variants:
+        cfg = rng.choice(["false-field", "false-field", "true-field", "cfg_attr-helper"] + (["false-variant"] if kind == "enum" else []))
+        withf = [v for v in variants if v["style"] != "unit"]
+        if cfg == "false-field" and withf:
+            v = rng.choice(withf)
+            v["fields"].insert(rng.randrange(len(v["fields"]) + 1), {"ty": ("NoSuchTypeAnywhere", False, ""), "attrs": [], "cfg": "false"})
+        elif cfg == "true-field" and withf:
+            v = rng.choice(withf)
+            v["fields"].insert(rng.randrange(len(v["fields"]) + 1), {"ty": FTY[12], "attrs": [], "cfg": "true"})
+        elif cfg == "false-variant":
+            variants.insert(rng.randrange(len(variants) + 1), {"style": "tuple", "fields": [{"ty": ("NoSuchTypeAnywhere", False, ""), "attrs": []}], "cfg": "false"})
+            if dv is not None:
+                dv = next(i for i, v in enumerate(variants) if not v.get("cfg") and sum(1 for w in variants[:i] if not w.get("cfg")) == dv)
+            if stdv is not None:
+                stdv = next(i for i, v in enumerate(variants) if not v.get("cfg") and sum(1 for w in variants[:i] if not w.get("cfg")) == stdv)
+        elif cfg == "cfg_attr-helper":
+            cands = [f for v in variants for f in v["fields"] if f["attrs"]]
+            if cands:
+                rng.choice(cands)["cfg_attr"] = True
+            else:
+                cfg = None
+        else:
+            cfg = None
     return {"kind": kind, "traits": traits, "variants": variants, "decl": decl, "where": wh, "dv": dv,
-            "entry": rng.choice(["attr", "derive"]), "split": rng.random() < 0.15, "stdv": stdv}
+            "entry": rng.choice(["attr", "derive"]), "split": rng.random() < 0.15, "stdv": stdv, "cfg": cfg}
 
 
-def render(s, with_dx=True):
+def render(s, with_dx=True, resolved=False):
+    """resolved: the item as it is after conditional compilation (false parts removed, cfg / cfg_attr wrappers dropped)."""
     g = "<" + ", ".join(s["decl"]) + ">" if s["decl"] else ""
     wh = f" where {s['where']}" if s["where"] else ""
     bodies = []
     for vi, v in enumerate(s["variants"]):
         fs = []
         for i, f in enumerate(v["fields"]):
-            a = (" ".join(f["attrs"]) + " ") if (with_dx and f["attrs"]) else ""
+            if resolved and f.get("cfg") == "false":
+                continue
+            attrs = list(f["attrs"])
+            if f.get("cfg_attr") and attrs and not resolved:
+                attrs[0] = "#[cfg_attr(all(), " + attrs[0][2:-1] + ")]"
+            a = (" ".join(attrs) + " ") if (with_dx and attrs) else ""
+            if f.get("cfg") and not resolved:
+                a = ("#[cfg(any())] " if f["cfg"] == "false" else "#[cfg(all())] ") + a
             fs.append(f"{a}f{i}: {f['ty'][0]}" if v["style"] == "named" else f"{a}{f['ty'][0]}")
         bodies.append("{ " + ", ".join(fs) + " }" if v["style"] == "named" else ("(" + ", ".join(fs) + ")" if v["style"] == "tuple" else ""))
     if s["kind"] == "struct":
@@ -151,6 +185,10 @@ def render(s, with_dx=True):
     else:
         vs = []
         for vi, b in enumerate(bodies):
+            if s["variants"][vi].get("cfg") == "false":
+                if not resolved:
+                    vs.append(f"#[cfg(any())] V{vi}{b}")
+                continue
             m = "#[default] " if ((with_dx and s["dv"] == vi and (len(bodies) > 1 or vi % 2 == 0)) or s.get("stdv") == vi) else ""
             vs.append(f"{m}V{vi}{b}")
         item = f"pub enum Ty{g}{wh} {{ " + ", ".join(vs) + " }"
@@ -218,17 +256,31 @@ def run(rep, tier, rng):
                 allowed.add(d["code"])
     rep.extra["lints_also_drawn_by_std_derive"] = sorted(allowed)
     cases = []
+    # one fixed case per kind of conditional compilation under the attribute entry point (listed known finding), then random ones
+    fixed = []
+    frng = C.rng_for("C20cfg", 0)
+    for kind_ in ("false-field", "false-variant", "cfg_attr-helper", "true-field"):
+        for _ in range(20000):
+            s = gen_case(frng)
+            if s.get("cfg") == kind_ and s["entry"] == "attr":
+                fixed.append(s)
+                break
     for i in range(NGRAMMAR[tier]):
-        s = gen_case(rng)
+        s = fixed[i] if i < len(fixed) else gen_case(rng)
         code, ctl = render(s), render(s, with_dx=False)
-        if i % 5 == 0:
+        if i % 5 == 0 and not s.get("cfg"):
             # a second derived type in the same scope: whatever the expansion puts next to the impls must not collide
             s2 = gen_case(rng)
+            while s2.get("cfg"):
+                s2 = gen_case(rng)
             code += "\n" + re.sub(r"\bTy\b", "Tz", render(s2))
             ctl += "\n" + re.sub(r"\bTy\b", "Tz", render(s2, with_dx=False))
             s = dict(s, second=describe(s2), traits=s["traits"] + [t for t in s2["traits"] if t not in s["traits"]])
         cases.append(C.Case(f"g{i}", code, {"spec": s, "src": "grammar"}))
         cases.append(C.Case(f"k{i}", ctl, {"control": True}))
+        if s.get("cfg") in ("false-field", "false-variant", "cfg_attr-helper") and s["entry"] == "attr" and "second" not in s:
+            # the same item as it is after conditional compilation (what #[derive(Ex)] is given)
+            cases.append(C.Case(f"r{i}", render(s, resolved=True), {"control": True}))
     for j, b in enumerate(progs.base_programs(rng, NBASE[tier])):
         code = b["code"].replace("pub fn run() {", "#[allow(warnings)] pub fn run() {").replace("\nfn dump(", "\n#[allow(warnings)] fn dump(")
         cases.append(C.Case(f"b{j}", code, {"src": b["src"], "traits": b["traits"]}))
@@ -245,6 +297,18 @@ def run(rep, tier, rng):
             if k.status != "ok":
                 rep.count("control_rejected")
                 continue
+        r = by.get("r" + c.name[1:]) if c.meta["src"] == "grammar" else None
+        if r is not None and c.status == "compile_fail" and r.status == "ok":
+            # The attribute entry point is handed the item BEFORE conditional compilation: a field / variant under a false
+            # #[cfg] is still there, a helper attribute inside #[cfg_attr(..)] is not visible.  The item as it is after
+            # conditional compilation expands and compiles, so this failure is exactly that and nothing else.
+            rep.evaluations += 1
+            rep.count("programs_grammar")
+            rep.violation(f"C20|attribute-entry-point-expands-the-unconfigured-item|{c.meta['spec']['cfg']}",
+                          f"attribute macro entry point + {c.meta['spec']['cfg']}: the generated code does not compile "
+                          f"({[(d['code'], (d['message'] or '')[:60]) for d in c.diags if d['level'] == 'error'][:2]}), while the same item after "
+                          f"conditional compilation does:\n{c.code[:500]}", {"code": c.code})
+            continue
         if own_errors(c):
             rep.count("refused_by_derive_ex_itself")
             continue
@@ -298,7 +362,9 @@ def run(rep, tier, rng):
                 "Deref) plus a crossing grammar: random trait lists (incl. operators on structs, split lists) x struct/enum shapes incl. empty "
                 "and single-variant enums x lifetime/type/const parameters with inline bounds, defaults and where-clauses mentioning `Self` x "
                 "field types over the parameters x ord/hash ignore/reverse/key/by (generic-friendly functions) with `by` on first/middle/last "
-                "fields, debug ignore/transparent/bound, default values x both entry points; compiled metadata-only under #![deny(warnings)]. "
+                "fields, debug ignore/transparent/bound, default values, `Self` inside key expressions, a std #[derive(Default)] sharing the item, "
+                "a second derived type in the same scope, fields / variants under #[cfg(any())] / #[cfg(all())] and helper attributes inside "
+                "#[cfg_attr(all(), ..)] x both entry points; compiled metadata-only under #![deny(warnings)]. "
                 "Oracle: if derive_ex reports no error of its own and the control (same definition without derive_ex) compiles, rustc must "
                 "report no error and no denied warning located in derive_ex's output (lints the std derive draws from the same field types "
                 "are measured at run time and allowed). evaluations = accepted programs judged.")
